@@ -25,9 +25,15 @@ fn main() {
     main_for("C06", body)
 }
 
-const TAGS: [&[u8; 4]; 8] = [
+const TAGS: [&[u8; 4]; 13] = [
     b"head", b"CFF ", b"DSIG", b"glyf", b"OS/2", b"aaaa", b"zzzz", b"cmap",
+    // "any tags": bytes outside printable ASCII, in particular first bytes >= 0x80 (which a signed
+    // comparison would sort before every ordinary tag), an all-zero and an all-ones tag
+    b"\x80abc", b"\xE9xt ", b"\xFF\xFF\xFF\xFF", b"\0\0\0\0", b"a\x80bc",
 ];
+/// tag pools (indices into TAGS) of the map families
+const BASE_POOL: [usize; 8] = [0, 1, 2, 3, 4, 5, 6, 7];
+const HIGH_POOL: [usize; 8] = [0, 5, 2, 8, 9, 10, 11, 12];
 const LENS_FULL: [usize; 10] = [0, 1, 2, 3, 4, 5, 11, 12, 13, 16];
 const LENS_RED: [usize; 6] = [0, 1, 3, 4, 12, 13];
 // fill classes: 0 = all 00, 1 = all FF (forces 32-bit checksum wrap), 2 = ramp
@@ -405,8 +411,8 @@ fn run_map(run: &Run, base: &MapCase, orders: &[Vec<usize>], l: &mut Local) {
     }
 }
 
-fn maps_family(run: &Run, k: usize, lens: &[usize], fills: &[u8], orders: &[Vec<usize>], name: &str) {
-    let subs = subsets(TAGS.len(), k);
+fn maps_family(run: &Run, pool: &[usize], k: usize, lens: &[usize], fills: &[u8], orders: &[Vec<usize>], name: &str) {
+    let subs: Vec<Vec<usize>> = subsets(pool.len(), k).into_iter().map(|s| s.into_iter().map(|i| pool[i]).collect()).collect();
     let lvs = tuples(lens.len(), k);
     let fvs = tuples(fills.len(), k);
     // work items: (subset, length vector); inner loop over fill vectors and orders
@@ -445,7 +451,7 @@ fn maps_family(run: &Run, k: usize, lens: &[usize], fills: &[u8], orders: &[Vec<
 // family (b): histories
 // ---------------------------------------------------------------------------
 
-const HTAGS: [&[u8; 4]; 3] = [b"head", b"aaaa", b"CFF "];
+const HTAGS: [&[u8; 4]; 4] = [b"head", b"aaaa", b"CFF ", b"\xE9xt "];
 
 fn hist_blob(tag: usize, variant: usize) -> Vec<u8> {
     // variant 0: 13-byte ramp; variant 1: 16 bytes of FF (head >= 12 in both: adjustment engaged);
@@ -463,6 +469,92 @@ fn hist_blob(tag: usize, variant: usize) -> Vec<u8> {
 /// `CFF `); S3: the three HTAGS as EMPTY tables.
 /// S4, S5: the two members of the repository's TTC.ttc test collection, opened with
 /// `FontRef::from_index` (real tables incl. `head`; table offsets are relative to the collection file).
+/// tables of the hand-assembled "external" font: tags sorted by their UNSIGNED bytes (the spec
+/// order), including tags whose first byte is >= 0x80, an all-zero and an all-ones tag
+fn external_tables() -> Vec<([u8; 4], Vec<u8>)> {
+    let mut t: Vec<([u8; 4], Vec<u8>)> = vec![
+        (*b"\0\0\0\0", vec![0xD0; 5]),
+        (*b"a\x80bc", vec![0xD1; 6]),
+        (*b"aaaa", vec![0xD2; 7]),
+        (*b"zzzz", vec![0xD3; 8]),
+        (*b"\x80abc", vec![0xD4; 9]),
+        (*b"\xE9xt ", vec![0xD5; 10]),
+        (*b"\xFF\xFF\xFF\xFF", vec![0xD6; 11]),
+    ];
+    t.sort_by(|a, b| u32::from_be_bytes(a.0).cmp(&u32::from_be_bytes(b.0)));
+    t
+}
+
+/// sfnt assembled by the harness itself from the spec (no FontBuilder): header, directory sorted by
+/// unsigned tag value, per-table checksums, 4-byte aligned zero-padded tables
+fn external_sfnt() -> Vec<u8> {
+    let tables = external_tables();
+    let n = tables.len();
+    let mut out = vec![];
+    out.extend_from_slice(&0x0001_0000u32.to_be_bytes());
+    out.extend_from_slice(&(n as u16).to_be_bytes());
+    // searchRange / entrySelector / rangeShift for n = 7: 64, 2, 48
+    let sel = (n as f64).log2().floor() as u16;
+    let sr = 16 * (1u16 << sel);
+    out.extend_from_slice(&sr.to_be_bytes());
+    out.extend_from_slice(&sel.to_be_bytes());
+    out.extend_from_slice(&((n as u16) * 16 - sr).to_be_bytes());
+    let mut offset = 12 + 16 * n;
+    for (tag, data) in &tables {
+        out.extend_from_slice(tag);
+        out.extend_from_slice(&spec_checksum(data).0.to_be_bytes());
+        out.extend_from_slice(&(offset as u32).to_be_bytes());
+        out.extend_from_slice(&(data.len() as u32).to_be_bytes());
+        offset += (data.len() + 3) / 4 * 4;
+    }
+    for (_, data) in &tables {
+        out.extend_from_slice(data);
+        out.resize((out.len() + 3) / 4 * 4, 0);
+    }
+    out
+}
+
+/// "External font" sub-check: the hand-assembled font must open and answer `table_data` for every
+/// one of its tags with the right bytes (and nothing for absent tags). It is also copy source S6
+/// of the history family.
+fn external_font_check(run: &Run) {
+    let bytes = external_sfnt();
+    let tables = external_tables();
+    let case = json!({"family":"external"});
+    run.eval();
+    run.count("external_font_checks", 1);
+    let font = match guard(|| FontRef::new(&bytes)) {
+        Ok(Ok(f)) => f,
+        Ok(Err(e)) => {
+            run.violation("FontRef::new: hand-assembled sfnt with non-ASCII tags does not open", &format!("{e}"), case);
+            return;
+        }
+        Err(p) => {
+            run.violation(&format!("FontRef::new: panic {} [{}]", p.kind(), p.site()), &p.message, case);
+            return;
+        }
+    };
+    for (tag, data) in &tables {
+        let got = font.table_data(Tag::new(tag)).map(|d| d.as_bytes().to_vec());
+        if got.as_deref() != Some(data.as_slice()) {
+            let class = if tag[0] >= 0x80 { "first byte >= 0x80" } else if tag.iter().any(|b| !(0x20..0x7F).contains(b)) { "non-ASCII byte" } else { "ASCII" };
+            run.violation(
+                &format!("FontRef::table_data: a table of a spec-sorted (unsigned tag order) sfnt is not found or differs (tag class: {class})"),
+                &format!("tag {:02x?}: got {:?}, directory has {} bytes", tag, got.map(|g| g.len()), data.len()),
+                case.clone(),
+            );
+        }
+    }
+    for t in TAGS {
+        if !tables.iter().any(|x| x.0 == *t) && font.table_data(Tag::new(t)).is_some() {
+            run.violation("FontRef::table_data: answers for a tag that the external sfnt does not contain", &format!("{t:02x?}"), case.clone());
+        }
+    }
+    let mut h = Fnv::new();
+    h.str("external");
+    run.observe(h.finish(), true);
+}
+
 struct Sources {
     /// (file bytes, index within the file)
     files: Vec<(Vec<u8>, u32)>,
@@ -521,18 +613,21 @@ fn sources() -> Sources {
             models.push(m);
         }
     }
+    // S6: the hand-assembled external font (high-byte tags), a valid copy source
+    files.push((external_sfnt(), 0));
+    models.push(external_tables());
     Sources { files, models }
 }
 
-/// add_raw ops: 3 tags x {blob A, blob B, EMPTY blob}
-const N_ADD: u32 = 9;
+/// add_raw ops: 4 tags (one with a first byte >= 0x80) x {blob A, blob B, EMPTY blob}
+const N_ADD: u32 = 12;
 
 fn op_name(op: u32) -> String {
     if op < N_ADD {
         format!("add_raw({},{})", Tag::new(HTAGS[(op / 3) as usize]), ["A", "B", "empty"][(op % 3) as usize])
     } else {
         let i = op - N_ADD;
-        format!("copy_missing(S{}{})", i + 1, ["", "", ":empty tables", ":TTC member", ":TTC member"].get(i as usize).copied().unwrap_or(""))
+        format!("copy_missing(S{}{})", i + 1, ["", "", ":empty tables", ":TTC member", ":TTC member", ":hand-assembled, high-byte tags"].get(i as usize).copied().unwrap_or(""))
     }
 }
 
@@ -609,7 +704,7 @@ fn histories(run: &Run, depth: usize) {
     let srcs = sources();
     let n_ops = N_ADD + srcs.files.len() as u32;
     run.count("copy_sources", srcs.files.len() as u64);
-    if srcs.files.len() != 5 {
+    if srcs.files.len() != 6 {
         run.machinery_error("TTC.ttc test collection not found or not parseable: TTC-member sources missing");
     }
     // all op sequences of length 0..=depth, in fixed (length, lexicographic) order
@@ -685,7 +780,9 @@ fn body(run: &Run, replay: Option<&Value>) {
     run.assume("`build` is only used as the terminal operation of a history (it drains the builder; the statement says nothing about re-use after build)");
     if let Some(case) = replay {
         let mut l = Local::new();
-        if case["family"] == "history" {
+        if case["family"] == "external" {
+            external_font_check(run);
+        } else if case["family"] == "history" {
             let ops: Vec<u32> = case["ops"].as_array().map(|a| a.iter().map(|x| x.as_u64().unwrap_or(0) as u32).collect()).unwrap_or_default();
             run_history(run, &ops, &sources(), &mut l);
         } else {
@@ -706,8 +803,17 @@ fn body(run: &Run, replay: Option<&Value>) {
     run.bound("fill_classes", json!(["00", "FF", "ramp"]));
     // (a) maps
     for k in 0..=3 {
-        maps_family(run, k, &LENS_FULL, &FILLS_FULL, &permutations(k), &format!("{k}tags_full_alphabet_all_orders"));
+        maps_family(run, &BASE_POOL, k, &LENS_FULL, &FILLS_FULL, &permutations(k), &format!("{k}tags_full_alphabet_all_orders"));
     }
+    // tags with bytes outside printable ASCII (pool: head, aaaa, DSIG + 5 high/zero-byte tags)
+    for k in 1..=3 {
+        maps_family(run, &HIGH_POOL, k, &[0, 1, 4, 13], &[1, 2], &permutations(k), &format!("{k}tags_high_byte_pool_all_orders"));
+    }
+    if run.tier == Tier::Thorough {
+        maps_family(run, &HIGH_POOL, 4, &[0, 1, 4, 13], &[1, 2], &permutations(4), "4tags_high_byte_pool_all_orders");
+        maps_family(run, &HIGH_POOL, 8, &[0, 3, 13], &[1, 2], &[(0..8).collect(), (0..8).rev().collect()], "8tags_high_byte_pool_2_orders");
+    }
+    external_font_check(run);
     match run.tier {
         Tier::Quick => {
             // 8 of the 24 orders: every tag appears in every position at least once
@@ -715,20 +821,20 @@ fn body(run: &Run, replay: Option<&Value>) {
                 vec![0, 1, 2, 3], vec![3, 2, 1, 0], vec![1, 3, 0, 2], vec![2, 0, 3, 1],
                 vec![1, 0, 3, 2], vec![2, 3, 0, 1], vec![3, 0, 1, 2], vec![0, 2, 1, 3],
             ];
-            maps_family(run, 4, &LENS_RED, &FILLS_RED, &orders4, "4tags_reduced_alphabet_8_orders");
+            maps_family(run, &BASE_POOL, 4, &LENS_RED, &FILLS_RED, &orders4, "4tags_reduced_alphabet_8_orders");
             run.bound("maps", json!("<=3 tags: full alphabets, all k! insertion orders; 4 tags: lengths_reduced x {00,FF}, 8 of the 24 orders (all 24 in thorough)"));
         }
         Tier::Thorough => {
-            maps_family(run, 4, &LENS_RED, &FILLS_FULL, &permutations(4), "4tags_reduced_lengths_3fills_all_orders");
+            maps_family(run, &BASE_POOL, 4, &LENS_RED, &FILLS_FULL, &permutations(4), "4tags_reduced_lengths_3fills_all_orders");
             // 4 tags over the full alphabets: 56.7 M maps; insertion orders limited to 4 (stated)
             let orders4 = vec![vec![0, 1, 2, 3], vec![3, 2, 1, 0], vec![1, 3, 0, 2], vec![2, 0, 3, 1]];
-            maps_family(run, 4, &LENS_FULL, &FILLS_FULL, &orders4, "4tags_full_alphabet_4_orders");
-            maps_family(run, 5, &[0, 3, 4, 13], &[1, 2], &[vec![0, 1, 2, 3, 4], vec![4, 3, 2, 1, 0], vec![2, 4, 1, 3, 0]], "5tags_small_alphabet_3_orders");
+            maps_family(run, &BASE_POOL, 4, &LENS_FULL, &FILLS_FULL, &orders4, "4tags_full_alphabet_4_orders");
+            maps_family(run, &BASE_POOL, 5, &[0, 3, 4, 13], &[1, 2], &[vec![0, 1, 2, 3, 4], vec![4, 3, 2, 1, 0], vec![2, 4, 1, 3, 0]], "5tags_small_alphabet_3_orders");
             // 6, 7 and all 8 tags over the 3-length alphabet {0, 3, 13} x {FF, ramp} in 3 orders
             let big_orders = |k: usize| -> Vec<Vec<usize>> { vec![(0..k).collect(), (0..k).rev().collect(), (0..k).map(|i| (i * 5 + 1) % k.max(1)).collect()] };
-            maps_family(run, 6, &[0, 3, 13], &[1, 2], &big_orders(6), "6tags_3lengths_3_orders");
-            maps_family(run, 7, &[0, 3, 13], &[1, 2], &big_orders(7), "7tags_3lengths_3_orders");
-            maps_family(run, 8, &[0, 3, 13], &[1, 2], &big_orders(8), "8tags_3lengths_3_orders");
+            maps_family(run, &BASE_POOL, 6, &[0, 3, 13], &[1, 2], &big_orders(6), "6tags_3lengths_3_orders");
+            maps_family(run, &BASE_POOL, 7, &[0, 3, 13], &[1, 2], &big_orders(7), "7tags_3lengths_3_orders");
+            maps_family(run, &BASE_POOL, 8, &[0, 3, 13], &[1, 2], &big_orders(8), "8tags_3lengths_3_orders");
             large_tables(run);
             run.bound("maps", json!("<=3 tags: full alphabets, all orders; 4 tags: reduced lengths x 3 fills in all 24 orders and full alphabets in 4 orders (identity, reverse, two derangements); 5 tags: lengths {0,3,4,13} x {FF,ramp} in 3 orders; 6, 7 and 8 tags: lengths {0,3,13} x {FF,ramp} in 3 orders; two-table fonts with one table of 65533..70003 bytes"));
         }
@@ -736,7 +842,7 @@ fn body(run: &Run, replay: Option<&Value>) {
     // (b) histories
     let depth = run.tier.pick(4, 5);
     run.bound("history_depth", json!(depth));
-    run.bound("history_ops", json!((0..N_ADD + 5).map(op_name).collect::<Vec<_>>()));
+    run.bound("history_ops", json!((0..N_ADD + 6).map(op_name).collect::<Vec<_>>()));
     histories(run, depth);
     // samples
     let s = MapCase { tags: vec![0, 2, 5], lens: vec![13, 3, 16], fills: vec![1, 2, 1], order: vec![2, 0, 1] };
